@@ -119,6 +119,71 @@ def freeze(o):
     return o
 
 
+# ---------------------------------------------------------------- state fingerprint
+import types as _types
+
+
+def fingerprint(roots, skip_keys=()):
+    """Canonical serialisation of the reachable object graph, aliasing included
+    (objects are numbered in first-visit order; a second visit prints a back
+    reference).  Deliberately over-fine: states that differ only in hidden
+    sharing must not be merged."""
+    memo, out = {}, []
+    stack = [("v", roots)]
+    while stack:
+        tag, o = stack.pop()
+        if tag == "s":
+            out.append(o)
+            continue
+        if isinstance(o, (int, float, str, bool, type(None), bytes)):
+            out.append(repr(o))
+            continue
+        oid = id(o)
+        if oid in memo:
+            out.append("@%d" % memo[oid])
+            continue
+        memo[oid] = len(memo)
+        if isinstance(o, (list, tuple)):
+            out.append("[" + type(o).__name__)
+            stack.append(("s", "]"))
+            for x in reversed(o):
+                stack.append(("v", x))
+        elif isinstance(o, dict):
+            out.append("{")
+            stack.append(("s", "}"))
+            for k in sorted(o, key=repr, reverse=True):
+                if k in skip_keys:
+                    continue
+                stack.append(("v", o[k]))
+                stack.append(("s", repr(k)))
+        elif isinstance(o, (set, frozenset)):
+            out.append("S" + repr(sorted(map(repr, o))))
+        elif isinstance(o, (_types.FunctionType, _types.LambdaType)):
+            out.append("F:%s:%d" % (o.__code__.co_name, o.__code__.co_firstlineno))
+            for c in reversed(o.__closure__ or ()):
+                try:
+                    stack.append(("v", c.cell_contents))
+                except ValueError:
+                    stack.append(("s", "<empty cell>"))
+        elif isinstance(o, _types.MethodType):
+            out.append("M:" + o.__func__.__name__)
+            stack.append(("v", o.__self__))
+        elif isinstance(o, (_dt.datetime, _dt.date, _dt.time, _dt.timedelta)):
+            out.append(repr(o))
+        elif isinstance(o, (type, _types.ModuleType, _types.BuiltinFunctionType)):
+            out.append("T:" + getattr(o, "__name__", "?"))
+        elif hasattr(o, "__dict__"):
+            out.append("O:" + type(o).__name__)
+            stack.append(("v", o.__dict__))
+        else:
+            out.append("?" + type(o).__name__)
+    return "|".join(out)
+
+
+def fp_hash(roots, skip_keys=()):
+    return int(hashlib.sha1(fingerprint(roots, skip_keys).encode()).hexdigest()[:15], 16)
+
+
 # ---------------------------------------------------------------- hang guard
 class Hang(Exception):
     pass
@@ -158,10 +223,12 @@ class Acc:
         self.samples = []
         self.outcomes = set()
         self.caps = []
-        self.known = collections.Counter()
+        self.keycount = collections.Counter()
+        self.state_set = set()
 
     def violation(self, case, key, reason, order=None):
         self.nviol += 1
+        self.keycount[key] += 1
         if len(self.viol) < MAXV or not any(v["key"] == key for v in self.viol):
             self.viol.append({"case": enc(case), "key": key, "reason": reason,
                               "ord": None if order is None else list(order)})
@@ -179,7 +246,7 @@ class Acc:
             "evals": self.evals, "states": self.states, "trans": self.trans,
             "nontriv": self.nontriv, "counters": dict(self.counters),
             "viol": self.viol, "nviol": self.nviol, "samples": self.samples,
-            "outcomes": self.outcomes, "caps": self.caps,
+            "outcomes": self.outcomes, "caps": self.caps, "keycount": dict(self.keycount), "state_set": self.state_set,
         }
 
 
@@ -283,11 +350,15 @@ def run_check(pid, tier, seed, workers=None):
     tot = collections.Counter()
     counters = collections.Counter()
     outcomes = set()
+    keycount = collections.Counter()
+    state_union = set()
     viol, samples, caps = [], [], []
     for r in results:
         for k in ("evals", "states", "trans", "nontriv", "nviol"):
             tot[k] += r[k]
         counters.update(r["counters"])
+        keycount.update(r.get("keycount", {}))
+        state_union |= r.get("state_set", set())
         outcomes |= r["outcomes"]
         for v in r["viol"]:
             v["shard"] = r["idx"]
@@ -296,6 +367,7 @@ def run_check(pid, tier, seed, workers=None):
         if len(samples) < 4:
             samples += r["samples"][:1]
 
+    tot["states"] += len(state_union)  # E-HIST shards report fingerprints; the union is the distinct-state count
     # canonical order: simplest case first, independent of the worker count
     viol.sort(key=lambda v: (v.get("ord") is None, v.get("ord") or [], v["shard"]))
     # ---- triage: known findings vs. violations
@@ -368,6 +440,8 @@ def run_check(pid, tier, seed, workers=None):
              len(outcomes), tot["nviol"], wall))
     for k, v in sorted(counters.items()):
         print("   %-38s %d" % (k, v))
+    for k, v in sorted(keycount.items()):
+        print("   violation-key %-40s %d" % (k, v))
     return status
 
 
